@@ -1,5 +1,116 @@
-"""(stub)"""
+"""Contracts for fakesnow/types.py (C06: DuckDB describe type -> Snowflake rowtype / ResultMetadata)."""
+from __future__ import annotations
+
+import z3
+
+from pyvc.sorts import I, S, V, mkb, mki, mks
+from pyvc.state import Val
+from pyvc.types import DictT, ListT, NoneType, Opt, TupleT
+from pyvc.world import Contract, SpecFun
+
+# ---------------------------------------------------------------------------------------------------------------
+# Specification table taken from the property text (C06) and DESIGN Appendix D: per DuckDB result type the
+# Snowflake type code with precision / scale / length.  Domain: the types a DuckDB result column can have (A-DUCK).
+# ---------------------------------------------------------------------------------------------------------------
+FIXED_INTS = ["BIGINT", "INTEGER", "SMALLINT", "TINYINT", "HUGEINT", "UBIGINT", "UINTEGER", "USMALLINT", "UTINYINT"]
+SPEC_TABLE = {
+    **{t: ("fixed", 38, 0, None, None) for t in FIXED_INTS},
+    "DOUBLE": ("real", None, None, None, None),
+    "FLOAT": ("real", None, None, None, None),
+    "VARCHAR": ("text", None, None, 16777216, 16777216),
+    "BLOB": ("binary", None, None, 8388608, 8388608),
+    "BOOLEAN": ("boolean", None, None, None, None),
+    "DATE": ("date", None, None, None, None),
+    "TIME": ("time", 0, 9, None, None),
+    "TIMESTAMP": ("timestamp_ntz", 0, 9, None, None),
+    "TIMESTAMP_NS": ("timestamp_ntz", 0, 9, None, None),
+    "TIMESTAMP WITH TIME ZONE": ("timestamp_tz", 0, 9, None, None),
+    "JSON": ("variant", None, None, None, None),
+}
+
+
+def spec_row(column_type: str):
+    if column_type in SPEC_TABLE:
+        return SPEC_TABLE[column_type]
+    import re
+
+    m = re.fullmatch(r"DECIMAL\((\d+),(\d+)\)", column_type)
+    if m:
+        return ("fixed", int(m[1]), int(m[2]), None, None)
+    return None
+
+
+def domain(w=None):
+    """complete for the thorough tier: every DuckDB result type of the table and every DECIMAL(p,s), 1<=p<=38, 0<=s<=p.
+    quick tier: all named types and the DECIMAL(p,s) with p, s on digit-count / range edges"""
+    import os
+
+    cases = []
+    for t in SPEC_TABLE:
+        cases.append({"bind": {"column_type": t}, "label": t.replace(" ", "_")})
+    full = os.environ.get("VERIF_TIER_EFFECTIVE", "quick") == "thorough"
+    for p in range(1, 39):
+        for s in range(0, p + 1):
+            if not full and not (p in (1, 2, 9, 10, 11, 18, 19, 20, 37, 38) and s in (0, 1, 2, 9, 10, 11, 12, p - 1, p)):
+                continue
+            cases.append({"bind": {"column_type": f"DECIMAL({p},{s})"}, "label": f"DECIMAL({p},{s})"})
+    return cases
 
 
 def install(w):
-    pass
+    def sf(name, idx):
+        def z(ex, st, args):
+            # symbolic column type: uninterpreted (only used modularly, callers never look inside)
+            f = z3.Function(f"spec_rowtype_{name}", S, V)
+            return Val(f(V.sval(args[0].t)), None)
+
+        def py(column_type):
+            r = spec_row(column_type)
+            return None if r is None else r[idx]
+
+        w.specfuns[f"spec_{name}"] = SpecFun(f"spec_{name}", z, py, concrete_ok=True)
+
+    for i, nm in enumerate(["type", "precision", "scale", "length", "bytelength"]):
+        sf(nm, i)
+
+    def _is_rt(ex, st, args):
+        f = z3.Function("is_duck_result_type", S, z3.BoolSort())
+        return Val(mkb(f(V.sval(args[0].t))), bool)
+
+    # the DuckDB types a result column can have and that correspond to a Snowflake type of the property's list
+    w.specfuns["is_result_type"] = SpecFun("is_result_type", _is_rt, lambda t: spec_row(t) is not None, concrete_ok=True)
+
+    w.add_contract(
+        Contract(
+            "fakesnow.types.describe_as_rowtype.<locals>.as_column_info",
+            params={"column_name": str, "column_type": str},
+            requires=["is_result_type(column_type)"],
+            result=DictT(str, None),
+            fresh_result=True,
+            ensures={
+                "C06.rowtype.name": "result['name'] == column_name",
+                "C06.rowtype.type": "result['type'] == spec_type(column_type)",
+                "C06.rowtype.precision": "result['precision'] == spec_precision(column_type)",
+                "C06.rowtype.scale": "result['scale'] == spec_scale(column_type)",
+                "C06.rowtype.length": "result['length'] == spec_length(column_type)",
+                "C06.rowtype.bytelength": "result['byteLength'] == spec_bytelength(column_type)",
+                "C06.rowtype.nullable": "result['nullable'] == True",
+            },
+            cases=domain,
+            props=["C06", "C17"],
+        )
+    )
+    w.add_contract(
+        Contract(
+            "fakesnow.types.describe_as_rowtype",
+            params={"describe_results": ListT(TupleT(items=[str, str, None, None, None, None]))},
+            requires=["forall(0, len(describe_results), lambda j: is_result_type(describe_results[j][1]))"],
+            result=ListT(DictT(str, None)),
+            ensures={
+                "C06.rowtype.count": "len(result) == len(describe_results)",
+                "C06.rowtype.order": "forall(0, len(result), lambda j: result[j]['name'] == describe_results[j][0] and result[j]['type'] == spec_type(describe_results[j][1]) "
+                "and result[j]['precision'] == spec_precision(describe_results[j][1]) and result[j]['scale'] == spec_scale(describe_results[j][1]))",
+            },
+            props=["C06", "C17"],
+        )
+    )
